@@ -305,6 +305,9 @@ def rules(rep, facts):
         r3_enum_access(rep, facts)
         rep.relabel('C13/R3', 'C17/R7', 'what the serializers write for enum variants is read back in every spelling: ')
         r7_forwarding(rep, facts, rid='C17/R8')
+        from .rules_c13 import r1_wrappers
+        r1_wrappers(rep, facts)
+        rep.relabel('C13/R1', 'C17/R11', 'what to_string writes, from_str reads back through the same specialised methods (a wrapper that leaves one to deserialize_any refuses text the serializer produced): ')
         from .rules_c07 import r2c_key_stash
         from .rules_c11 import r7_widening
         r2c_key_stash(rep, facts, rid='C17/R9')
